@@ -17,7 +17,7 @@ SKIP_STMT = ('StorageLive', 'StorageDead', 'nop', 'FakeRead', 'PlaceMention', 'R
 
 
 class Body:
-    __slots__ = ('name', 'header', 'args', 'ret', 'locals', 'blocks', 'raw', 'crate', 'types', 'compiled', 'span')
+    __slots__ = ('name', 'header', 'args', 'ret', 'locals', 'blocks', 'raw', 'crate', 'types', 'compiled', 'span', '_zst_closures')
 
     def __init__(self, name, header):
         self.name = name; self.header = header
